@@ -30,11 +30,11 @@ WRAPS = (0.0, 180.0)
 def gain_vectors(full):
     """(gff, gpe, gde, gie) vectors, simplest first."""
     base = [(0.0, 0.0, 0.0, 0.0), (1.0, 1.0, 1.0, 1.0), (-3.0, -3.0, -3.0, -3.0)]
-    for g in (1.0, -3.0):
-        for k in range(4):
-            v = [0.0] * 4
-            v[k] = g
-            base.append(tuple(v))
+    for k in range(4):
+        v = [0.0] * 4
+        v[k] = 1.0
+        base.append(tuple(v))
+    base.append((0.0, -3.0, 0.0, 0.0))
     extra = [(0.0, INF, 0.0, 0.0), (0.0, NAN, 0.0, 0.0)]
     if not full:
         return base + extra
@@ -264,10 +264,10 @@ def work(job):
                 k = canon(post, evaluated)
                 if k not in seen:
                     seen[k] = h2
+                    p.nontrivial((fr(cfg[:4]), k))
                     nxt.append((post, evaluated, h2))
         layer = nxt
     p.states = len(seen)
-    p.nontrivial(("states", fr(cfg[:4]), len(seen)))
     # ---- validate snapshot/restore against plain replay: every state's witness history re-run from the primed state,
     #      and the longest ones on a freshly built controller
     items = sorted(seen.items(), key=lambda kv: (len(kv[1]), [tuple(fr(x) for x in e) for e in kv[1]]))
@@ -344,7 +344,7 @@ def run():
     ]
     return ck.finish(
         rule="configurations = wrap {0,180} x error-sum limits %r x output limits x gain vectors (gff,gpe,gde,gie) x rate mode; calcRate True: %d gain vectors x 4 output limits, "
-             "sequences of <= 3 updates; calcRate False: 13 gain vectors x %d output limits x ger %s, sequences of <= %d updates. update = input x set point over %r "
+             "sequences of <= 3 updates; calcRate False: 10 gain vectors x %d output limits x ger %s, sequences of <= %d updates. update = input x set point over %r "
              "x lapse %s x sensed rate, plus a zero-lapse update. evaluations = real controller updates judged; states = distinct fed-back states summed over configurations."
              % (ESLIMS, len(gain_vectors(core.TIER != "quick")), 2 if core.TIER == "quick" else 4, "{-3}" if core.TIER == "quick" else "{1,-3}",
                 2 if core.TIER == "quick" else 3, VALUES, "{0.125, 1}" if core.TIER == "quick" else "{0.125, 1, inf}"),
